@@ -91,6 +91,7 @@ def main():
     ap.add_argument("--keep", action="store_true")
     ap.add_argument("--all-checks", action="store_true")
     ap.add_argument("--extra-checks", default="")
+    ap.add_argument("--by-meta", action="store_true")
     a = ap.parse_args()
     cands = []
     if a.kept:
@@ -98,6 +99,23 @@ def main():
         for d in sorted(os.listdir(base)):
             if os.path.isdir(os.path.join(base, d)) and (not a.only or a.only in d):
                 cands.append((os.path.join(base, d), d.split("-")[0], d))
+    elif a.src and a.by_meta:
+        # layout <src>/<group>/<n>/ with the property taken from meta.json (round 4: file-oriented seeds)
+        for g in sorted(os.listdir(a.src)):
+            gd = os.path.join(a.src, g)
+            if not os.path.isdir(gd):
+                continue
+            for x in sorted(os.listdir(gd)):
+                d = os.path.join(gd, x)
+                mp = os.path.join(d, "meta.json")
+                if os.path.isdir(d) and os.path.exists(mp):
+                    try:
+                        pid = json.load(open(mp)).get("property", "C01")
+                    except Exception:
+                        pid = "C01"
+                    name = f"{pid}-r4{g[:4]}{x}"
+                    if not a.only or a.only in name:
+                        cands.append((d, pid, name))
     else:
         for pid in ALL:
             for x in ("a", "b", "c", "d", "e", "f", "g", "h"):
